@@ -173,7 +173,7 @@ class WorldA(object):
 
     # ---- server role: the peer connects once the node listens ----------
     def _node_listening(self, sock):
-        if not self.scn.get("peer_connects", True):
+        if not self.scn.get("peer_connects", True) or sock.addr != self.addr:
             return
         def go():
             self.peer.connect(self.addr, then=self._peer_connected)
